@@ -2,6 +2,19 @@
 SOURCE_COMMITS = []
 NOT_APPLICABLE = {}
 CHECKS = {
+ "C17": {
+  "text": "StringSubst.tla is the reference semantics of the substitution language and of !expr conditions written from the manual "
+          "(AST, Render, Value with laziness/nounset/quoting contexts, Truth, ToFun); TLC exhaustively enumerates all substitution "
+          "ASTs up to a cost bound, nesting towers, all protected texts, all well/ill-typed !expr trees up to 4 leaves and all raw "
+          "strings up to length 4-5 over the meta alphabet under 10 self-consistency invariants, and every state is replayed into "
+          "the real Env.substitute / Env.evaluate / IfExpression with value, ParseError-vs-value, truth and infix == function-form "
+          "oracles, plus an internal-exception oracle on raw, hostile and random inputs. Exhaustive within the bounds; conformance "
+          "testing of the code, not a proof.",
+  "design_ref": "DESIGN.md section 4, C17",
+  "note": "the transcription of the manual into StringSubst.tla (readings where the manual is silent are marked 'any' and not judged); Python re semantics judged only on a fixed pattern catalogue",
+  "technique": "explicit TLA+ reference semantics + exhaustive TLC enumeration as generator and oracle; spec-to-code replay; internal-exception oracle on raw strings and random inputs",
+ },
+
  "C14": {
   "text": "AuditTrail.tla (per-workspace audit records with references, generation on execution from the dependency trails, skip, "
           "download/upload/share copies; <=3 invocations x <=2 edits x two workspaces/archive/sandbox/shared store) is model-checked "
